@@ -36,6 +36,13 @@ PreFunc == << LetS(n_c, L(IntV(10))),
 PreFop3 == << LetS(n_l, ListE(<< L(IntV(1)), L(IntV(2)) >>)),
               LetS(n_t, TupE(<< F(n_a, L(IntV(1))), F(n_b, L(IntV(2))) >>)),
               LetS(n_s, L(StrV(<< "a", "b" >>))) >>
+(* a bit of everything for the simulation of the full grammar *)
+PreSim == << LetS(n_t, TupE(<< F(n_a, L(IntV(1))), F(n_b, L(StrV(<< "x" >>))) >>)),
+             LetS(n_l, ListE(<< L(IntV(1)), L(IntV(2)), L(IntV(3)) >>)),
+             LetS(n_s, L(StrV(<< "a", "b" >>))),
+             LetS(n_inc, FuncE(<< n_x >>, Bin("add", S(n_x), L(IntV(1))))),
+             LetS(n_kv, FuncE(<< n_k, n_v >>, ListE(<< Bin("add", S(n_k), L(StrV(<< "z" >>))), S(n_v) >>))),
+             LetS(n_red, FuncE(<< n_acc, n_x >>, Bin("add", S(n_acc), S(n_x)))) >>
 (* functions for map / filter / reduce over lists, tuples and strings *)
 PreFop == << LetS(n_l, ListE(<< L(IntV(1)), L(IntV(2)), L(IntV(3)) >>)),
              LetS(n_t, TupE(<< F(n_a, L(IntV(1))), F(n_b, L(IntV(2))) >>)),
@@ -121,8 +128,11 @@ FamFopInl == {"lit", "var", "bin", "func", "fop", "let"}
 FamCallPre == {"lit", "var", "bin", "call", "badcall", "let", "exprstmt"}
 FamFuncDef == {"lit", "var", "bin", "func", "select", "let"}
 FamModDef == {"lit", "var", "bin", "module", "dot", "letuse"}
-FamFuncUse == {"lit", "var", "bin", "func", "select", "list", "letuse"}
+FamFuncUse == {"lit", "var", "bin", "func", "select", "list", "letuse", "exprstmt"}
 FamCast == {"lit", "var", "bin", "cast", "let"}
 FamBind == {"lit", "var", "bin", "func", "call", "fmt1", "module", "copy", "let", "badlet", "reserved", "tuple"}
+FamSim == {"lit", "var", "bin", "not", "let", "exprstmt", "list", "tuple", "dot", "copy", "self", "in", "is",
+           "select", "func", "call", "badcall", "module", "fop", "fmt", "fmtbad", "fmt1", "range", "cast", "fail",
+           "trace", "letuse"}
 FamAll == FamOps \cup FamData \cup FamSelect \cup FamFunc \cup FamMod \cup FamFop \cup FamMisc
 =============================================================================
